@@ -61,6 +61,7 @@ int cp_sokdl_sig(bn_t c, bn_t s, const uint8_t *msg, size_t len, const ec_t y,
 		}
 
 		buf = m;
+		memset(m, 0, len + 3 * (RLC_FC_BYTES + 1));
 		ec_curve_get_ord(n);
 		ec_curve_get_gen(t);
 		memcpy(buf, msg, len);
@@ -119,6 +120,7 @@ int cp_sokdl_ver(const bn_t c, const bn_t s, const uint8_t *msg, size_t len,
 		}
 
 		buf = m;
+		memset(m, 0, len + 3 * (RLC_FC_BYTES + 1));
 		ec_curve_get_ord(n);
 		ec_curve_get_gen(t);
 		memcpy(buf, msg, len);
@@ -139,12 +141,14 @@ int cp_sokdl_ver(const bn_t c, const bn_t s, const uint8_t *msg, size_t len,
 		bn_read_bin(v, h, RLC_MD_LEN);
 		bn_mod(v, v, n);
 
-		if (bn_cmp(v, c) == RLC_EQ) {
+		if (bn_cmp(v, c) == RLC_EQ && bn_sign(s) == RLC_POS &&
+				bn_cmp(s, n) == RLC_LT) {
 			result = 1;
 		}
 	}
 	RLC_CATCH_ANY {
-		result = RLC_ERR;
+		/* An error never validates a proof. */
+		result = 0;
 	}
 	RLC_FINALLY {
 		bn_free(n);
@@ -186,6 +190,7 @@ int cp_sokor_sig(bn_t c[2], bn_t s[2], const uint8_t *msg, size_t len,
 		}
 
 		buf = m;
+		memset(m, 0, len + 6 * (RLC_FC_BYTES + 1));
 		ec_curve_get_ord(n);
 		bn_rand_mod(c[zero], n);
 		memcpy(buf, msg, len);
@@ -283,6 +288,7 @@ int cp_sokor_ver(const bn_t c[2], const bn_t s[2], const uint8_t *msg,
 		}
 
 		buf = m;
+		memset(m, 0, len + 6 * (RLC_FC_BYTES + 1));
 		ec_curve_get_ord(n);
 		memcpy(buf, msg, len);
 		buf += len;
@@ -319,9 +325,17 @@ int cp_sokor_ver(const bn_t c[2], const bn_t s[2], const uint8_t *msg,
 		if (bn_is_zero(z)) {
 			result = 1;
 		}
+		/* Challenges and responses must be reduced modulo the order. */
+		for (int i = 0; i < 2; i++) {
+			if (bn_sign(c[i]) == RLC_NEG || bn_cmp(c[i], n) != RLC_LT ||
+					bn_sign(s[i]) == RLC_NEG || bn_cmp(s[i], n) != RLC_LT) {
+				result = 0;
+			}
+		}
 	}
 	RLC_CATCH_ANY {
-		result = RLC_ERR;
+		/* An error never validates a proof. */
+		result = 0;
 	}
 	RLC_FINALLY {
 		bn_free(n);
